@@ -4,5 +4,7 @@ CONSTANTS Dates = {1, 2, 3}
           MaxMerges = 4
           MaxAgain = 1
           Stable = TRUE
+          Zones = {0}
+          ZoneAware = TRUE
 INIT Init
 NEXT NextGen
